@@ -120,7 +120,8 @@ _cache_node = Contract(
     families=['Grammar8', 'CacheItem'], ret=Obj('CacheItem'),
     raises={'KeyError': 'not (grammar._hashed in parser_cache and path in parser_cache[grammar._hashed])'},
     raises_iff=['KeyError'],
-    ensures=['result == parser_cache[grammar._hashed][path]'],
+    ensures=['implies(grammar._hashed in parser_cache and path in parser_cache[grammar._hashed], '
+             'result == parser_cache[grammar._hashed][path])'],
     witness={}, replay=_replay_cache_node,
     witness_library=[{'present': 'none'}, {'present': 'grammar-only'}, {'present': 'both'}],
 )
@@ -300,6 +301,13 @@ def structural_state(repo):
     return out
 
 
+def _standin(repo, seed, tier):
+    from pyvc.standin import run_standin
+    return run_standin('C08', tier, seed, repo)
+
+
+_standin.tiers = ('quick', 'thorough')
+BOUNDED = [_standin]
 STRUCTURAL = [structural_state]
 NOT_DECIDED = ['parso\'s in-place tree mutation vs. Names still held by an older Script (documented unsupported upstream)',
                'diff-parser correctness (excluded by the property)', 'signature_time_cache / memoize_method wrappers: contracts pending']
